@@ -13,7 +13,7 @@ import (
 func init() {
 	eng.Register(&eng.Check{
 		ID:          "C04",
-		Rule:        "differential on the implementation over the C01 match space: every (selector, literal, document) triple (incl. absent keys, ill-typed literals, nil, non-collections) x the four operator pairs; the negated operator must error exactly when the positive one does and otherwise return its negation; `S contains v` / `S not contains v` must equal `v in S` / `v not in S` (same outcome on every document and identical AST); each must equal not(...) around its counterpart. Distinct by construction; non-trivial = the positive form did not fail in selector resolution (reference walk resolved or hit the absent-key table).",
+		Rule:        "differential on the implementation over the C01 match space (default configuration over the whole document universe, plus hook / unknown-value / tag configurations over documents with values behind a wrapper struct): every (selector, literal, document) triple (incl. absent keys, ill-typed literals, nil, non-collections) x the four operator pairs; the negated operator must error exactly when the positive one does and otherwise return its negation; `S contains v` / `S not contains v` must equal `v in S` / `v not in S` (same outcome on every document and identical AST); each must equal not(...) around its counterpart. Distinct by construction; non-trivial = the positive form did not fail in selector resolution (reference walk resolved or hit the absent-key table).",
 		Assumptions: []string{"outcome classes only (T/F/E); error texts never compared", "bounded: selector / literal / document alphabets of C01"},
 		Run:         runC04,
 	})
@@ -22,7 +22,19 @@ func init() {
 var opPairs = [][2]int{{OpEq, OpNe}, {OpIn, OpNotIn}, {OpEmpty, OpNotEmpty}, {OpMatches, OpNotMatches}}
 
 func runC04(c *eng.Ctx) {
-	ds := docs(c.Thorough())
+	// pass 0: default configuration over the whole document universe; further passes: hook / unknown-value / tag
+	// configurations over the wrapped-document slice (the complement laws must hold under every configuration)
+	runC04Pass(c, 0, defaultCfg, docs(c.Thorough()))
+	slice := configSlice(c)
+	for i, cfg := range slice.cfgs {
+		runC04Pass(c, i+1, cfg, slice.docs)
+	}
+}
+
+func runC04Pass(c *eng.Ctx, pass int, cfg Cfg, ds []*Node) {
+	if !c.Want("pass", pass) {
+		return
+	}
 	data := make([]interface{}, len(ds))
 	for i, d := range ds {
 		data[i] = Build(d).Interface()
@@ -32,7 +44,7 @@ func runC04(c *eng.Ctx) {
 		sels = append(append([][]string{}, selsQuick...), selsMore...)
 	}
 	evalSrc := func(src string) []int {
-		ev, err := bexpr.CreateEvaluator(src)
+		ev, err := bexpr.CreateEvaluator(src, optsFor(cfg)...)
 		if err != nil {
 			c.Violate(eng.Violation{Kind: "harness-expression-rejected", Key: "create: " + src, Detail: err.Error()})
 			return nil
@@ -43,7 +55,7 @@ func runC04(c *eng.Ctx) {
 			c.R.Evaluations++
 			out[i] = cls3(o)
 			if o.panicked {
-				c.Violate(eng.Violation{Kind: "panic", Key: caseKey(src, ds[i], defaultCfg), Case: describe(src, ds[i], defaultCfg), Observed: o.String()})
+				c.Violate(eng.Violation{Kind: "panic", Key: caseKey(src, ds[i], cfg), Case: describe(src, ds[i], cfg), Observed: o.String()})
 			}
 		}
 		return out
@@ -58,7 +70,7 @@ func runC04(c *eng.Ctx) {
 			}
 			c.R.Traces++
 			if b[di] != f(a[di]) {
-				c.Violate(eng.Violation{Kind: rule, Key: "A=" + srcA + " | B=" + srcB + " | datum=" + ds[di].String(), Coords: map[string]int{"i": idx},
+				c.Violate(eng.Violation{Kind: rule, Key: "A=" + srcA + " | B=" + srcB + " | datum=" + ds[di].String() + cfgSuffix(cfg), Coords: map[string]int{"i": idx, "pass": pass},
 					Case: map[string]any{"A": srcA, "B": srcB, "datum": ds[di].String()}, Expected: "B = " + v3name[f(a[di])] + " (A = " + v3name[a[di]] + ")", Observed: "B = " + v3name[b[di]]})
 			}
 		}
@@ -80,8 +92,12 @@ func runC04(c *eng.Ctx) {
 				if c.Expired() {
 					return
 				}
-				pos := &Match{Sel: s, Op: pair[0], Lit: l}
-				neg := &Match{Sel: s, Op: pair[1], Lit: l}
+				style := StyleBacktick
+				if identOK(l) {
+					style = StyleBare // unquoted word in value position (also words that start with a keyword)
+				}
+				pos := &Match{Sel: s, Op: pair[0], Lit: l, Style: style}
+				neg := &Match{Sel: s, Op: pair[1], Lit: l, Style: style}
 				ps, ns := Render(pos), Render(neg)
 				p, n := evalSrc(ps), evalSrc(ns)
 				cmp(idx, "negation-not-complement", ps, ns, p, n, not3)
@@ -89,8 +105,12 @@ func runC04(c *eng.Ctx) {
 				cmp(idx, "not-around-positive-differs-from-negated-operator", ns, np, n, evalSrc(np), same)
 				cmp(idx, "not-around-negated-differs-from-positive-operator", ps, nn, p, evalSrc(nn), same)
 				if pair[0] == OpIn {
-					cs := sel + " contains " + RenderLit(l)
-					cn := sel + " not contains " + RenderLit(l)
+					rl := RenderLit(l)
+					if style == StyleBare {
+						rl = l
+					}
+					cs := sel + " contains " + rl
+					cn := sel + " not contains " + rl
 					cmp(idx, "contains-differs-from-in", ps, cs, p, evalSrc(cs), same)
 					cmp(idx, "not-contains-differs-from-not-in", ns, cn, n, evalSrc(cn), same)
 					for _, q := range [][2]string{{ps, cs}, {ns, cn}} {
@@ -104,7 +124,7 @@ func runC04(c *eng.Ctx) {
 				// statistics: distinct (selector, literal, pair, document) cases and their non-triviality
 				for di, d := range ds {
 					c.R.States++
-					rf := NewRef(d, defaultCfg)
+					rf := NewRef(d, cfg)
 					rf.Eval(pos, nil)
 					if rf.Resolved+rf.NotPresent > 0 {
 						c.R.Nontrivial++
@@ -117,4 +137,11 @@ func runC04(c *eng.Ctx) {
 			}
 		}
 	}
+}
+
+func cfgSuffix(cfg Cfg) string {
+	if cfg == defaultCfg {
+		return ""
+	}
+	return " | " + cfg.String()
 }
